@@ -16,22 +16,29 @@ def make_gsc(kind, w):
     if kind == "false":
         return sc.DontStop()
     name, _, arg = kind.partition(":")
+    if arg == "sym":
+        # the budget itself is a symbolic integer: the solver looks for the thresholds at which the run misbehaves
+        arg = getattr(w, "_sym_limit", None)
+        if arg is None:
+            arg = w._sym_limit = w.P.int("limit", 1, 400)
+    elif arg:
+        arg = int(arg)
     if name == "MetaepochLimit":
-        return sc.MetaepochLimit(int(arg))
+        return sc.MetaepochLimit(arg)
     if name == "DontRun":
         return sc.DontRun()
     if name == "SingularProblemEvalLimitReached":
-        return sc.SingularProblemEvalLimitReached(int(arg))
+        return sc.SingularProblemEvalLimitReached(arg)
     if name == "FitnessEvalLimitReached":
-        return sc.FitnessEvalLimitReached(int(arg))
+        return sc.FitnessEvalLimitReached(arg)
     if name == "FitnessEvalLimitReachedRoot":
-        return sc.FitnessEvalLimitReached(int(arg), weights=sc.WeightingStrategy.ROOT)
+        return sc.FitnessEvalLimitReached(arg, weights=sc.WeightingStrategy.ROOT)
     if name == "RootStopped":
         return sc.RootStopped()
     if name == "AllStopped":
         return sc.AllStopped()
     if name == "NoActiveNonrootDemes":
-        return sc.NoActiveNonrootDemes(int(arg))
+        return sc.NoActiveNonrootDemes(arg)
     raise ValueError(kind)
 
 
@@ -103,10 +110,14 @@ def h_run(P, kinds, props, steps=3, mech="nbc", hibernation=True, L=2, generatio
 
         def run_step():
             pre = check_step_start()
+            if w.gsc.inner is not None:
+                # ground truth at the metaepoch boundary, computed by the harness with a fresh pure copy of the condition
+                P.oblige("C05.no_metaepoch_after_condition_holds_at_boundary", bool(make_gsc(gsc, w)(tree)) is False)
             if steps_done[0] >= steps:
                 P.cut(f"more than {steps} metaepochs")
-            orig()
+            r = orig()
             check_step_end(pre)
+            return r
 
         tree.run_step = run_step
         n_before = len(w.gsc.verdicts)
@@ -115,8 +126,10 @@ def h_run(P, kinds, props, steps=3, mech="nbc", hibernation=True, L=2, generatio
         P.oblige("C05.returns_when_condition_holds", len(w.gsc.verdicts) > n_before and w.gsc.verdicts[-1] is True
                  and w.gsc.where[-1] is None)
         P.oblige("C05.counter_equals_metaepochs_performed", tree.metaepoch_count == steps_done[0])
+        if w.gsc.inner is not None:
+            P.oblige("C05.condition_holds_at_return", bool(make_gsc(gsc, w)(tree)) is True)
         name, _, arg = gsc.partition(":")
-        if name == "MetaepochLimit":
+        if name == "MetaepochLimit" and arg != "sym":
             P.oblige("C05.metaepoch_limit_exact", tree.metaepoch_count == int(arg))
         if name == "DontRun":
             P.oblige("C05.dontrun_zero", tree.metaepoch_count == 0 and steps_done[0] == 0)
@@ -161,4 +174,19 @@ def run_cases(prop, tier, hib_values=(False, True)):
                                params=dict(kinds=list(kinds), props=[prop], steps=steps, mech=mech, hibernation=hib, L=L, pop=pop,
                                            max_consultations=400, generations=2 if len(kinds) == 2 else 1),
                                profile="fp", budget_s=900 if tier == "quick" else 3000, max_paths=200000, weight=steps * len(kinds)))
+    return cs
+
+
+def run_loop_cases(tier):
+    cs = []
+    gscs = ["sym", "MetaepochLimit:2", "DontRun", "SingularProblemEvalLimitReached:sym", "FitnessEvalLimitReached:sym",
+            "FitnessEvalLimitReachedRoot:sym", "RootStopped", "AllStopped", "NoActiveNonrootDemes:1", "MetaepochLimit:sym"]
+    combos = [(("ea", "cma"), "simple", 4)] if tier == "quick" else [(("ea", "cma"), "simple", 4), (("de", "ea", "cma"), "nbc", 4), (("ea", "local"), "nbc", 4)]
+    steps = 3 if tier == "quick" else 5
+    for kinds, mech, pop in combos:
+        for g in gscs:
+            cs.append(dict(name=f"runloop.{'-'.join(kinds)}.{mech}.{g}", fn=h_run,
+                           params=dict(kinds=list(kinds), props=["C05"], steps=steps, mech=mech, hibernation=False, L=2, pop=pop, gsc=g, use_run=True,
+                                       max_consultations=60, generations=2 if len(kinds) == 2 else 1),
+                           profile="fp", budget_s=900 if tier == "quick" else 3000, max_paths=100000, weight=10))
     return cs
